@@ -31,14 +31,15 @@ else
 fi
 [ -n "${SEED_RENAME:-}" ] && "$VERIF/tools/renameall.sh" "$WT" >/dev/null
 CAUGHT=""
+PROPS="${PROPS:-C01 C02 C03 C04 C05 C06 C07 C08 C09 C10 C11 C12 C13 C14 C15 C16 C17 C18 C19 C20}"   # PROPS="C18 C19" restricts the evaluation to some checks
 OUT="$VERIF/out/seeds/$ID"
 mkdir -p "$OUT"
-for P in C01 C02 C03 C04 C05 C06 C07 C08 C09 C10 C11 C12 C13 C14 C15 C16 C17 C18 C19 C20; do
+for P in $PROPS; do
   ( "${GBV_BIN:-$VERIF/bin/gbv}" check -prop $P -tier quick -no-evidence -repo "$WT" -verif "$VERIF" > "$OUT/$P.log" 2>&1; echo $? > "$OUT/$P.rc" ) &
   while [ "$(jobs -r | wc -l)" -ge 4 ]; do sleep 0.2; done
 done
 wait
-for P in C01 C02 C03 C04 C05 C06 C07 C08 C09 C10 C11 C12 C13 C14 C15 C16 C17 C18 C19 C20; do
+for P in $PROPS; do
   if [ "$(cat "$OUT/$P.rc")" != "0" ]; then CAUGHT="$CAUGHT $P"; fi
 done
 echo "$ID caught-by:${CAUGHT:- NONE}"
